@@ -19,6 +19,14 @@ theorem C18_date : ∀ days : Nat,
   intro days
   exact daysToYmd_spec days
 
+/-- The closed form the judge evaluates (years of any size) is the calendar's definition by summation. -/
+theorem C18_daysFromCivil_closed (y m d : Nat) (hy : 1970 ≤ y) : daysFromCivilClosed y m d = daysFromCivil y m d := by
+  have h := yearSum_closed y hy
+  rw [daysFromCivil_eq]
+  unfold daysFromCivilClosed monthSum
+  unfold leapsUpTo at h
+  omega
+
 /-! ### 2. time of day -/
 
 /-- The four printed quantities (day number, hour, minute, second) denote `secs`, and the
